@@ -176,3 +176,24 @@ func H_switch_labels() {
 	want = append(want, 999)
 	same(got, ok, want, "switch-labels")
 }
+
+// H_foreach_object_write: a foreach over an object whose body writes the object it iterates
+// (by dynamic name, by fixed name, adding a property): the loop visits the entries the object had
+// when the loop started, terminates, and the writes are there afterwards.
+func H_foreach_object_write() {
+	w := symx.Int("w")
+	k := symx.Choose("case", 3)
+	body := []string{"$o->$k = $v + $a;", "$o->p = $v + $a;", "$o->added = $a;"}[k]
+	src := "class P { public $p = 1; public $q = 2; }\n$o = new P();\nforeach ($o as $k => $v) { " + body + " emit($v); }\nemit($o->p); emit($o->q); emit(999);"
+	got, ok := run(src, map[string]int{"a": w})
+	var want []int
+	switch k {
+	case 0:
+		want = []int{1, 2, 1 + w, 2 + w, 999}
+	case 1:
+		want = []int{1, 2, 2 + w, 2, 999}
+	case 2:
+		want = []int{1, 2, 1, 2, 999}
+	}
+	same(got, ok, want, "foreach-object-write")
+}
